@@ -377,6 +377,64 @@ def falsify(ctx, hints):
                             ainp, float(r), 0.0, f"irispie.disaggregate(x, {fh}, method='arip', model=('{form}','{aggn}'))")
         except Exception as e:  # noqa
             add(f"arip:raises:{type(e).__name__}", f"arip raises {type(e).__name__}: {e}"[:200], {"note": "arip"})
+        # 4a. arip with high-frequency targets that cover only PART of some low-frequency periods: every aggregation
+        #     constraint and every target value must hold exactly
+        try:
+            fl = rng.choice([1, 4]); fh = rng.choice([f for f in (4, 12) if f > fl]); nw = fh // fl
+            nl = rng.randint(2, 5)
+            lo_spec = {"freq": fl, "start": (2000 + rng.randint(0, 20)) * fl + rng.randint(0, fl - 1), "nv": 1,
+                       "rows": [[float(rng.randint(20, 80))] for _ in range(nl)]}
+            lo = sc.mk_series(lo_spec)
+            aggn = rng.choice(["sum", "mean"]); form = rng.choice(["diff", "rate"])
+            hs = lo.start.convert(_freq_enum(fh), position="start")
+            tgt_rows = [[float("nan")] for _ in range(nl * nw)]
+            tcells = {}
+            for i in range(nl):
+                if rng.random() < 0.6:
+                    for j in rng.sample(range(nw), rng.randint(1, nw - 1)):       # never the whole period
+                        v = lo_spec["rows"][i][0] / (nw if aggn == "sum" else 1) * rng.uniform(0.8, 1.2)
+                        tgt_rows[i * nw + j] = [round(v, 3)]; tcells[i * nw + j] = round(v, 3)
+            if tcells:
+                tgt = sc.mk_series({"freq": fh, "start": int(hs.serial), "nv": 1, "rows": tgt_rows})
+                hi = ir.disaggregate(lo, _freq_enum(fh), method="arip", model=(form, aggn), target=tgt)
+                xh = np.asarray(hi.get_data(ir.Span(hs, hs + nl * nw - 1)), dtype=float)[:, 0]
+                info["arip"] += 1
+                vec = [1] * nw if aggn == "sum" else [1 / nw] * nw
+                agg_back = np.array([float(np.dot(vec, xh[i * nw:(i + 1) * nw])) for i in range(nl)])
+                low = np.array([r[0] for r in lo_spec["rows"]])
+                tinp = {"series": lo_spec, "target_freq": fh, "model": [form, aggn], "targets": {str(k): v for k, v in tcells.items()}}
+                if not _close(agg_back, low, 1e-7):
+                    add(f"arip:targets:aggregation:{aggn}", "arip with partial high-frequency targets does not satisfy its aggregation constraints",
+                        tinp, agg_back.tolist(), low.tolist(), "irispie.disaggregate(x, fh, method='arip', model=..., target=t)")
+                got_t = np.array([xh[k] for k in tcells]); want_t = np.array(list(tcells.values()))
+                if not _close(got_t, want_t, 1e-7):
+                    add(f"arip:targets:hit:{aggn}", "arip does not hit its high-frequency target values exactly", tinp, got_t.tolist(), want_t.tolist())
+        except Exception as e:  # noqa
+            add(f"arip:targets:raises:{type(e).__name__}", f"arip with targets raises {type(e).__name__}: {e}"[:200], {"note": "arip targets"})
+        # 4c. exact documented positions of first / middle / last for a DAILY target (month lengths, leap years)
+        try:
+            fl = rng.choice([1, 4, 12]); nl = rng.randint(3, 6)
+            y0 = rng.choice([1999, 2003, 2019, 2023])
+            lo_spec = {"freq": fl, "start": y0 * fl + rng.randint(0, fl - 1), "nv": 1, "rows": [[float(10 + i)] for i in range(nl)]}
+            lo = sc.mk_series(lo_spec)
+            for dm in ("first", "middle", "last"):
+                hi = ir.disaggregate(lo, _freq_enum(365), method=dm)
+                info["placement"] += 1
+                for i, t in enumerate(lo.periods):
+                    y_, s_ = t.serial // fl, t.serial % fl + 1
+                    mem = _members(365, fl, y_, s_)
+                    pos = {"first": 0, "middle": len(mem) // 2, "last": len(mem) - 1}[dm]
+                    col = np.asarray(hi.get_data([sc.mk_period(365, h) for h in mem]), dtype=float)[:, 0]
+                    where = [j for j, v in enumerate(col) if v == v]
+                    if where != [pos] or col[pos] != lo_spec["rows"][i][0]:
+                        add(f"placement:{dm}:exact:{fl}->365", f"disaggregate {dm} to daily does not place the value of {t} at exactly the documented day of that period",
+                            {"series": lo_spec, "low_period": str(t), "days_in_period": len(mem)}, where, [pos],
+                            f"irispie.disaggregate(x, DAILY, method='{dm}')")
+                        raise StopIteration
+        except StopIteration:
+            pass
+        except Exception as e:  # noqa
+            add(f"placement:exact:raises:{type(e).__name__}", f"raises {type(e).__name__}: {e}"[:200], {"note": "daily placement"})
         # 4b. arip to a DAILY target: aggregating back over calendar periods must return the input
         if it % 10 == 0:
             try:
